@@ -276,17 +276,28 @@ type gatedPeers struct {
 	driver int64
 	mu     sync.Mutex
 	gate   chan struct{} // non-nil: the next foreign GetPeers parks on it
+	failing bool         // GetPeers returns an error
+	everRead bool        // some GetPeers call has succeeded
 	parked chan struct{} // closed when a caller has parked
 }
 
 func (g *gatedPeers) GetPeers() ([]string, error) {
 	l, err := g.MockPeers.GetPeers()
 	g.mu.Lock()
+	if g.failing {
+		// the peer list cannot be had right now (as when the Redis peers cannot
+		// work out their own address)
+		g.mu.Unlock()
+		return nil, fmt.Errorf("peer list unavailable")
+	}
 	gate, parked := g.gate, g.parked
 	if gate != nil && goid() != g.driver {
 		g.gate, g.parked = nil, nil
 	} else {
 		gate = nil
+	}
+	if err == nil {
+		g.everRead = true
 	}
 	g.mu.Unlock()
 	if gate != nil {
@@ -856,6 +867,14 @@ func (w *worldA) doReload(op Op) {
 		}
 	}
 	if w.reloadHook != nil && w.reloadHook(op) {
+		if op.B {
+			// a kept-decision capacity smaller than the number of workers: every
+			// worker's share is zero and its Resize fails
+			c.Mux.Lock()
+			c.SampleCache.KeptSize = 1
+			c.Mux.Unlock()
+			w.out.Fault("sent_cache_resize_fails")
+		}
 		w.pushEpoch()
 		if op.M == 1 {
 			// the collector's reload callback stalls half way; a worker decides a
@@ -959,7 +978,23 @@ func (w *worldA) schedule() time.Duration {
 				w.peersRace(op)
 			case "create_race":
 				w.createRace(op)
+			case "peers_fail":
+				w.gpeers.mu.Lock()
+				w.gpeers.failing = op.N == 1
+				w.gpeers.mu.Unlock()
+				if op.N == 1 {
+					w.out.Fault("peer_list_unavailable")
+				}
 			case "peers":
+				w.gpeers.mu.Lock()
+				failing := w.gpeers.failing
+				w.gpeers.mu.Unlock()
+				if failing {
+					// a membership change nobody can read: leave it for later (the model
+					// would have to track the last count that could be read)
+					w.out.Probe("peer_change_skipped_list_unavailable")
+					break
+				}
 				var pl []string
 				for i := int64(0); i < op.N; i++ {
 					pl = append(pl, fmt.Sprintf("http://peer%d:8081", i))
@@ -1088,6 +1123,12 @@ func (w *worldA) createRace(op Op) {
 // peersRace: a lazy sampler creation on a worker looks the peer list up, is
 // overtaken by a membership change, and only then applies what it looked up.
 func (w *worldA) peersRace(op Op) {
+	w.gpeers.mu.Lock()
+	failing := w.gpeers.failing
+	w.gpeers.mu.Unlock()
+	if failing {
+		return
+	}
 	// a root span of a new trace, decided at the next tick of its worker: if that
 	// worker has no sampler for the selector yet, it creates one now
 	w.doSpan(Op{ID: op.ID, K: "span", I: op.I, N: skRoot | op.J<<8, S: op.S})
